@@ -431,6 +431,29 @@ def _queue_frame_fact():
     return bad
 
 
+def _connection_frame_fact():
+    """Frame condition of lemmas/Conn.lean: in the real socket.py `open_connection` is called only by _connect and
+    `_reader` / `_writer` are assigned only by __init__, _connect and _disconnect."""
+    import ast
+    tree = ast.parse(open(os.path.join(REPO, "pyairtouch", "comms", "socket.py")).read())
+    bad = []
+    for cls in [n for n in ast.walk(tree) if isinstance(n, ast.ClassDef)]:
+        for fn in [n for n in ast.walk(cls) if isinstance(n, (ast.FunctionDef, ast.AsyncFunctionDef))]:
+            for n in ast.walk(fn):
+                if isinstance(n, ast.Call) and isinstance(n.func, ast.Attribute) and n.func.attr in ("open_connection", "start_server", "create_connection") \
+                        and fn.name != "_connect":
+                    bad.append(f"{fn.name}: {n.func.attr}()")
+                if isinstance(n, (ast.Assign, ast.AugAssign, ast.AnnAssign)):
+                    tg = n.targets if isinstance(n, ast.Assign) else [n.target]
+                    flat = []
+                    for t in tg:
+                        flat.extend(t.elts if isinstance(t, (ast.Tuple, ast.List)) else [t])
+                    for t in flat:
+                        if isinstance(t, ast.Attribute) and t.attr in ("_reader", "_writer") and fn.name not in ("__init__", "_connect", "_disconnect"):
+                            bad.append(f"{fn.name}: assignment to {t.attr}")
+    return bad
+
+
 def run_history_lemmas(prop, results, only):
     path = os.path.join(VERIF, "lemmas", "hypotheses.json")
     out, errs, und = [], [], []
@@ -454,10 +477,11 @@ def run_history_lemmas(prop, results, only):
         if open_:
             entry["status"] = "not applicable in this run: step contracts not discharged: " + "; ".join(open_[:3])
             continue
-        bad = _queue_frame_fact() if lem.get("frame_check") == "socket-queue" else []
+        bad = (_queue_frame_fact() if lem.get("frame_check") == "socket-queue"
+               else _connection_frame_fact() if lem.get("frame_check") == "socket-connection" else [])
         if bad:
             entry["status"] = "not applicable: frame condition of the lemma does not hold: " + "; ".join(bad[:3])
-            und.append(("history-lemma", f"the queue / writer is touched outside the functions under step contract ({bad[0]}): "
+            und.append(("history-lemma", f"state the lemma speaks about is touched outside the functions under step contract ({bad[0]}): "
                         f"the induction of {lem['file']} does not cover this code"))
             continue
         t1 = time.time()
